@@ -214,7 +214,7 @@ def _shard(name, shard, nshards, tier, seed):
         return c02._shard(name, shard, nshards, tier, seed + 1000)
     c = Corr(name)
     rng = np.random.default_rng([seed, shard, 19])
-    n = (48 if tier == 'quick' else 480) // nshards + 1
+    n = (48 if tier == 'quick' else 1920) // nshards + 1
     ops, impls, sigs = [], [], []
     for _ in range(n):
         for nm, fn, args in call_cases(rng):
